@@ -3,14 +3,15 @@
 package c08
 
 import (
-	"runtime"
 	"fmt"
 	"net"
 	"net/netip"
 	"os"
+	"runtime"
 	"sync"
 	"testing"
 	"time"
+	"verif/harness/zones"
 
 	"github.com/uhppoted/uhppote-core/types"
 	"github.com/uhppoted/uhppote-core/uhppote"
@@ -24,14 +25,28 @@ import (
 	"verif/harness/spec"
 )
 
+// the zone of the process differs per shard: UTC, two zones in which some days have no local midnight (dates on such days take
+// another path through the date code - whatever that path keeps between calls is shared by all goroutines), and the synthetic one
+var processZone = "UTC"
+var replyDays []spec.Civil
+
 func TestMain(m *testing.M) {
-	time.Local = time.UTC
+	processZone = []string{"UTC", "America/Santiago", "America/Havana", zones.Synthetic}[(ev.Shard()+ev.Shard()/4)%4]
+	time.Local = zones.Loc(processZone)
+	for _, g := range zones.MidnightGaps(processZone, 2000, 2037) {
+		if zones.DayExists(time.Local, g.Y, g.M, g.D) {
+			replyDays = append(replyDays, spec.Civil{Y: g.Y, M: g.M, D: g.D})
+		}
+	}
+	for d := 1; d <= 28; d++ {
+		replyDays = append(replyDays, spec.Civil{Y: 2024, M: 1 + d%12, D: d})
+	}
 	// other schedules: the shards run with different numbers of processors (all, 2, 4, 3) - fewer processors change which
 	// goroutine runs between two steps of another, and whom a sync.Pool hands a recycled buffer to
 	if p := []int{0, 2, 4, 3}[ev.Shard()%4]; p > 0 && p < runtime.GOMAXPROCS(0) {
 		runtime.GOMAXPROCS(p)
 	}
-	ev.Describe("the shards run with GOMAXPROCS = all / 2 / 4 / 3; batches of 2..24 goroutines over 1..3 client instances in one process (bind port 0, or one fixed bind port shared by all clients), each goroutine issuing 1..3 calls of mixed operations whose replies ECHO A PER-CALL NONCE (card number, event index, profile id, door/state/delay) to the same or different controllers over broadcast, connected UDP and TCP; the loopback farm answers each request after a delay drawn per call (0..60% of the timeout, counted from the moment the request is seen); optionally a discovery (GetDevices) whose replies keep arriving until the end of its collection window, and an event listener that is started, fed with events and stopped while events are still arriving. Oracle: every call returns without error and carries its own nonce; the Go race detector (binary built with -race) must stay silent - any report whose stacks contain a library frame is a violation. Non-trivial = batch in which >= 2 calls overlapped on the same controller or the same fixed port; distinct = distinct batch.",
+	ev.Describe("process zone per shard: UTC / America/Santiago / America/Havana / synthetic, the replies carry dates and times (card validity, profile, event timestamp, controller time, status) on ordinary days and on days without a local midnight; the shards run with GOMAXPROCS = all / 2 / 4 / 3; batches of 2..24 goroutines over 1..3 client instances in one process (bind port 0, or one fixed bind port shared by all clients), each goroutine issuing 1..3 calls of mixed operations whose replies ECHO A PER-CALL NONCE (card number, event index, profile id, door/state/delay) to the same or different controllers over broadcast, connected UDP and TCP; the loopback farm answers each request after a delay drawn per call (0..60% of the timeout, counted from the moment the request is seen); optionally a discovery (GetDevices) whose replies keep arriving until the end of its collection window, and an event listener that is started, fed with events and stopped while events are still arriving. Oracle: every call returns without error and carries its own nonce; the Go race detector (binary built with -race) must stay silent - any report whose stacks contain a library frame is a violation. Non-trivial = batch in which >= 2 calls overlapped on the same controller or the same fixed port; distinct = distinct batch.",
 		"schedules are sampled under the Go scheduler, not enumerated: the race detector only reports races the executed schedule exposes",
 		"a failed batch (other than a race report) is re-run once with the timeout x4")
 	ev.Main(m, "C08")
@@ -47,8 +62,11 @@ type callSpec struct {
 }
 
 type batch struct {
-	Clients   int        `json:"clients"`
-	FixedPort bool       `json:"fixed_port"`
+	Clients   int  `json:"clients"`
+	FixedPort bool `json:"fixed_port"`
+	// Mapped (per client): the client's configuration spells the controller addresses as IPv4-mapped IPv6 (::ffff:a.b.c.d,
+	// what netip.AddrFromSlice(net.ParseIP(..)) yields) - the same endpoints as the other clients', spelled differently
+	Mapped    []bool     `json:"mapped_addresses,omitempty"`
 	Paths     []int      `json:"paths"` // per controller: 0 broadcast, 1 udp, 2 tcp
 	Calls     []callSpec `json:"calls"`
 	Discovery bool       `json:"discovery"`
@@ -70,29 +88,51 @@ func reply(req []byte) []byte {
 	b := make([]byte, 64)
 	serial := spec.LE32(req[4:])
 	spec.Header(b, 0x17, req[1], serial)
+	// dates: half of them on the days of this process zone that have no local midnight (all replies stay valid)
+	day := func(k uint32) spec.Civil { return replyDays[int(k%uint32(len(replyDays)))] }
+	stamp := func(p []byte, k uint32) {
+		d := day(k)
+		spec.PutDateTime(p, spec.CivilDT{Y: d.Y, M: d.M, D: d.D, H: 12, Mi: int(k % 60), S: int(k / 60 % 60)})
+	}
+	nonce := spec.LE32(req[8:])
 	switch req[1] {
 	case 0x5a, 0x5c: // card by id / by index: the card number is the nonce
 		copy(b[8:12], req[8:12])
+		spec.PutDate(b[12:], day(nonce))
+		spec.PutDate(b[16:], day(nonce+1))
 		b[20], b[21] = 1, 1
 	case 0xb0:
 		copy(b[8:12], req[8:12])
 		b[12] = 1
+		stamp(b[20:], nonce)
 	case 0x98:
 		b[8] = req[8]
+		spec.PutDate(b[9:], day(uint32(req[8])))
+		spec.PutDate(b[13:], day(uint32(req[8])+3))
 	case 0x82:
 		b[8], b[9], b[10] = req[8], 3, 7
 	case 0x80:
 		copy(b[8:11], req[8:11])
 	case 0x20:
 		spec.PutLE32(b[40:], serial*7+1)
+		spec.PutLE32(b[8:], 17)
+		b[12] = 1
+		stamp(b[20:], serial)
+		d := day(serial + 1)
+		b[51], b[52], b[53] = bcd(d.Y%100), bcd(d.M), bcd(d.D)
+		b[37], b[38], b[39] = 0x12, 0x34, 0x56
 	case 0x94:
 		copy(b[8:], []byte{192, 168, 1, 100, 255, 255, 255, 0, 192, 168, 1, 1, 0, 0x66, 0x19, 0x39, 0x55, 0x2d, 0x08, 0x92, 0x20, 0x18, 0x08, 0x16})
-	case 0x32, 0x92:
+	case 0x32:
+		stamp(b[8:], serial)
+	case 0x92:
 	default:
 		b[8] = 1
 	}
 	return b
 }
+
+func bcd(v int) byte { return byte(v/10<<4 | v%10) }
 
 func invoke(u uhppote.IUHPPOTE, c callSpec, serial uint32) (err error, echoed string) {
 	defer func() {
@@ -289,6 +329,13 @@ func runBatch(b batch, scale int) *rp.Fail {
 			cc.BindIP = [4]byte{0, 0, 0, 0}
 		}
 		cc.Debug = b.Debug
+		if i < len(b.Mapped) && b.Mapped[i] {
+			cc.Devices = append([]hook.DeviceCfg(nil), cfg.Devices...)
+			for j := range cc.Devices {
+				ip := cc.Devices[j].IP
+				cc.Devices[j].RawIP = fmt.Sprintf("::ffff:%d.%d.%d.%d", ip[0], ip[1], ip[2], ip[3])
+			}
+		}
 		if b.PauseUs > 0 {
 			us := b.PauseUs
 			clients[i] = hook.RealPaused(cc, func(string) { time.Sleep(time.Duration(us) * time.Microsecond) })
@@ -485,6 +532,13 @@ func check(b batch) *rp.Fail {
 	if b.Discovery {
 		ev.Class("batch/with-discovery", 1)
 	}
+	mixed := map[bool]bool{}
+	for i := 0; i < b.Clients; i++ {
+		mixed[i < len(b.Mapped) && b.Mapped[i]] = true
+	}
+	if len(mixed) == 2 {
+		ev.Class("batch/clients-spell-the-same-addresses-differently", 1)
+	}
 	if b.Listen {
 		ev.Class("batch/with-listener-start-stop", 1)
 	}
@@ -509,6 +563,7 @@ func genBatch(t *rapid.T) batch {
 		PauseUs: rapid.SampledFrom([]int{0, 0, 0, 100, 1000, 5000}).Draw(t, "pause"), Debug: gen.Debug(t, "debug")}
 	for i := 0; i < b.Clients; i++ {
 		b.AnyAddr = append(b.AnyAddr, rapid.IntRange(0, 2).Draw(t, "bind.any") == 0)
+		b.Mapped = append(b.Mapped, rapid.IntRange(0, 2).Draw(t, "mapped") == 0)
 	}
 	nc := rapid.IntRange(1, 4).Draw(t, "controllers")
 	for i := 0; i < nc; i++ {
